@@ -162,7 +162,8 @@ def final(h: Any, e: Any, state: dict[str, Any]) -> None:
                             # only counts if the waiter was already registered when the event was processed
                             reg = [i for i, t in enumerate(h.ticks) if getattr(t, "type", "") == "step_result"
                                    and t.step_name == "ask" and t.event.uid == uid
-                                   and any(getattr(x, "type", "") == "add_waiter" or type(x).__name__ == "AddWaiter" for x in t.result)]
+                                   and any((getattr(x, "type", "") == "add_waiter" or type(x).__name__ == "AddWaiter")
+                                           and getattr(x, "waiter_id", None) == f"w{uid}{tag}" for x in t.result)]
                             idx_reg = reg[0] if reg else None
                             if idx_reg is not None and idx_reg < idx_ev:
                                 h.violate("timeout_despite_matching_event", wit0,
@@ -201,6 +202,9 @@ def specs(tier: str) -> list[Spec]:
     add("timeout_two_inputs", 2, 2, 5.0, True, [("Resp", "0")], max_dev=d)
     add("two_waits", 1, 1, None, True, [("Resp", "0"), ("Resp", "0b"), ("Resp", "0")], two=True, max_dev=d)
     add("implicit_id", 1, 1, None, True, [("Resp", "0"), ("Resp", "0")], implicit=True, max_dev=None)
+    # two sequential waits with timeouts: the first wait's (stale) timeout tick may fire between the two answers
+    add("timeout_two_waits", 1, 1, 5.0, True, [("Resp", "0"), ("Resp", "0b")], two=True, max_dev=None if not q else 4)
+    add("timeout_two_waits_noreq", 1, 1, 5.0, False, [("Resp", "x"), ("Resp", "y")], two=True, max_dev=None if not q else 4)
     # serialize / resume at every quiescent point
     add("resume_match", 1, 1, None, True, [("Resp", "0")], resume=True, max_dev=None)
     add("resume_nonmatch_match", 1, 1, None, True, [("Resp", "zz"), ("Resp", "0")], resume=True, max_dev=d)
